@@ -93,7 +93,40 @@ def make_case(r):
         ind = img[:size]
         exp_types, value = ["pe_file"], ind
         dl, dr = r.choice([(b" ", b" "), (b"\x00", b"\x00"), (b"", b""), (b"DMZ ", b" MZ")])
-    return {"kind": kind, "ind": ind, "types": exp_types, "value": value, "dl": dl, "dr": dr}
+    if r.random() < 0.03:
+        # far longer than any plausible fixed limit (MAX_PATH 260, 2 KiB URLs, 8191 byte command lines, 64 KiB)
+        n = r.choice([40, 300, 1300, 6000])
+        longer = None
+
+        def word():
+            return bytes(r.choice(netgen.LOWER + netgen.DIGITS + b"_") for _ in range(r.randint(3, 9)))
+
+        if kind == "url":
+            longer = ind.split(b"?")[0].split(b"#")[0].rstrip(b"/") + b"/" + b"/".join(word() for _ in range(n)) + r.choice([b"", b"?k=" + word() * (n // 4)])
+            value = neturl.normalise(longer)
+        elif kind == "posix":
+            longer = b"/" + b"/".join(word() for _ in range(n)) + b"/" + word() + b".cfg"
+            value = longer
+        elif kind == "windows" and exp_types == ["windows.path"] and ind[1:3] == b":\\":
+            longer = ind[:3] + b"\\".join(netgen._wseg(r) for _ in range(n)) + b"\\" + netgen._wseg(r) + b".dll"
+            value = ntpath.normpath(longer)
+        elif kind == "exe":
+            longer = word() * (n // 6 + 1) + b".exe"
+            value = longer
+        elif kind == "email":
+            longer = word().replace(b"_", b"a") * (n // 30 + 1) + b"@" + ind.split(b"@")[1]
+            value = longer
+        elif kind == "domain":
+            longer = b".".join(netgen.label(r, 3, 9) for _ in range(min(n, 300) // 10 + 1)) + b"." + ind
+            value = longer
+        if longer is not None:
+            ind = longer
+            kind_long = True
+        else:
+            kind_long = False
+    else:
+        kind_long = False
+    return {"kind": kind, "ind": ind, "types": exp_types, "value": value, "dl": dl, "dr": dr, "long": kind_long}
 
 
 TRIGGERS_AFTER = [b"<t>", b" <t:x>", b" section", b" sec.", b" version", b"ersion", b' "ersion']
@@ -161,6 +194,8 @@ def judge(c, pre, post, pre2, post2, ctx, case, trig=False):
         return
     ctx.count("judged")
     ctx.count("kind:" + c["kind"])
+    if c.get("long"):
+        ctx.count("longer_than_any_fixed_limit")
     off = len(pre)
     ctx.count("offset:0" if off == 0 else ("offset:>=64" if off >= 64 else "offset:small"))
     if trig:
